@@ -9,3 +9,4 @@ import NostrRelay.Props.C20
 import NostrRelay.Props.C10
 import NostrRelay.Props.C01
 import NostrRelay.Props.C02
+import NostrRelay.Props.C12
